@@ -22,7 +22,7 @@ import warnings
 
 import numpy as np
 
-from . import executor
+from . import compare, executor
 from .choices import Choices
 
 PROP = "C04"
@@ -446,7 +446,7 @@ def _outcome(fn):
     except BaseException as e:  # noqa: BLE001
         if isinstance(e, (KeyboardInterrupt, SystemExit, executor.ProtocolError)):
             raise
-        return ("raise", type(e).__name__, str(e)[:200])
+        return ("raise", type(e).__name__, compare.msg(e, 200))
 
 
 def _blocks(sc, rows_sel):
